@@ -341,7 +341,8 @@ def _register_capabilities_hooks(converter: cattrs.Converter) -> cattrs.Converte
             return None
         if isinstance(object_, (bool, int, str, float)):
             return object_
-        if "id" in object_ or "documentSelector" in object_:
+        # `MonikerRegistrationOptions` has no `id` (it is not a static registration).
+        if "documentSelector" in object_:
             return converter.structure(object_, lsp_types.MonikerRegistrationOptions)
         else:
             return converter.structure(object_, lsp_types.MonikerOptions)
